@@ -236,6 +236,10 @@ class _ReplayRNG:
         self.k = 0
 
     def normal(self, loc=0.0, scale=1.0, size=None):
+        shape = None
+        if isinstance(size, (tuple, list)):
+            shape = tuple(int(d) for d in size)
+            size = int(rnp.prod(shape, dtype=int))
         n = 1 if size is None else int(size)
         if self.seed is None:
             c = self.w._rng_count
@@ -246,6 +250,8 @@ class _ReplayRNG:
         self.w._rng_calls.append((c, n))
         xs = rnp.array([self.w._val(f"xi_{c}_{i}") for i in range(n)], dtype=float)
         r = xs * scale + loc
+        if shape is not None:
+            return r.reshape(shape)
         return r if size is not None else r[0]
 
     def standard_normal(self, size=None, dtype=None, out=None):
